@@ -135,8 +135,16 @@ def main():
         ctx.violations.append({"kind": "impl-crash", "desc": "implementation runner crashed: %s" % str(e)[-1500:],
                                "replay": {"crash": str(e)[-4000:]}, "key": None, "failing_input": False})
     except Exception:
-        print("INFRA-ERROR: harness exception\n" + traceback.format_exc())
-        sys.exit(2)
+        # the evaluator could not interpret what the implementation returned (a result of another length, shape
+        # or type than the model's): the correspondence no longer checks.  Reported as such - with the traceback in
+        # the replay file - never silently, and never as a pass.
+        tb = traceback.format_exc()
+        print("harness exception while evaluating the implementation's output:\n" + tb)
+        ctx.violations.append({"kind": "correspondence",
+                               "desc": "the evaluator could not interpret the implementation's output (%s)"
+                                       % tb.strip().splitlines()[-1][:200],
+                               "replay": {"broken": "correspondence (the harness raised while comparing)", "traceback": tb[-4000:]},
+                               "key": None, "failing_input": False})
 
     # 5. decide
     findings, fixed = load_known()
